@@ -1,9 +1,9 @@
 #!/bin/bash
-# tools/confirm_seed.sh <Cxx> <A|B>  — confirms a sub-agent's seeded change in a scratch worktree (never in /repo):
+# tools/confirm_seed.sh <Cxx> <A|B> [round-suffix, e.g. c]  — confirms a sub-agent's seeded change in a scratch worktree (never in /repo):
 # patch applies, builds, existing suite passes with it, demo test fails with it and passes without. On success the
 # change is stored as /verif/seeded/<Cxx>-agent-<A|B>/.
 set -u
-P=$1; V=$2; SRC=/tmp/wt-$P/RESULT/$V; WT=/tmp/wt-confirm
+P=$1; V=$2; R=${3:-}; SRC=/tmp/wt-$P$R/RESULT/$V; WT=/tmp/wt-confirm; TAG=$(echo "$R" | tr a-z A-Z)$V
 export GOFLAGS=-mod=mod GOPROXY=off GOSUMDB=off GOTOOLCHAIN=local
 [ -f $SRC/patch.diff ] || { echo "$P-$V: no patch"; exit 1; }
 [ -d $WT ] || git -C /repo worktree add -q $WT HEAD
@@ -23,9 +23,9 @@ okc=$(echo "$clean" | grep -c '^ok\|ok  ')
 failm=$(echo "$mut" | grep -c 'FAIL')
 echo "$P-$V: clean=[$(echo $clean | cut -c1-80)] mutated=[$(echo $mut | cut -c1-80)] suite=[$suite]"
 if [ "$okc" -ge 1 ] && [ "$failm" -ge 1 ] && [ "$suite" = "passed 186 failed 0" ]; then
-  d=/verif/seeded/$P-agent-$V; mkdir -p $d
+  d=/verif/seeded/$P-agent-$TAG; mkdir -p $d
   cp $SRC/patch.diff $d/patch.diff; cp $SRC/demo_test.go $d/demo_test.go; cp $SRC/README.md $d/README.md
-  python3 - "$d" "$P" "$V" "$place" "$run" <<'PY'
+  python3 - "$d" "$P" "$TAG" "$place" "$run" <<'PY'
 import json,sys,re
 d,p,v,place,run=sys.argv[1:6]
 readme=open(d+'/README.md').read()
